@@ -18,7 +18,9 @@ CHECK = dict(
            "*:op_move-construct-from-empty": 20,
            "*:thread_rounds": 8,
            "*:max_threads": 16},
-    assumptions=["the reference model in harness/c08_refcount.cpp (count = 1 + live handles + explicit incs - explicit decs) is correct",
+    assumptions=["counts of 2^31..2^63 references are produced by storing into the 64-bit counter, whose location (first word behind the "
+                 "vtable pointer) is verified at run time through refInc()/refDec()/useCount(); unverifiable -> inconclusive",
+                 "the reference model in harness/c08_refcount.cpp (count = 1 + live handles + explicit incs - explicit decs) is correct",
                  "explicit refDec is only issued while the harness owns an explicit reference (over-release is a caller error)",
                  "handles are never shared between threads for writing; only the pointee's counter is shared",
                  "self-move-assignment is not exercised (unspecified by the property)",
